@@ -35,8 +35,8 @@ ASSUMPTIONS = [
     'TemperatureArray without pressure points interpolates on the layer index: only the bound/constant claims are applied',
     'Rodgers2000 is judged with its default covariance and one temperature per layer',
 ]
-_Q = {'isothermal': 60, 'npoint': 420, 'guillot': 300, 'rodgers': 120, 'array': 200, 'file': 60, 'model': 40}
-_T = {'isothermal': 400, 'npoint': 5000, 'guillot': 4000, 'rodgers': 1200, 'array': 2500, 'file': 500, 'model': 300}
+_Q = {'isothermal': 60, 'npoint': 420, 'guillot': 300, 'rodgers': 120, 'array': 200, 'file': 60, 'model': 40, 'long': 4}
+_T = {'isothermal': 400, 'npoint': 5000, 'guillot': 4000, 'rodgers': 1200, 'array': 2500, 'file': 500, 'model': 300, 'long': 12}
 BUDGET = {
     'quick': [dict(name='main', env={}, shards=8, cases=_Q)],
     'thorough': [dict(name='main', env={}, shards=16, cases=_T),
@@ -53,7 +53,7 @@ REQUIRED = dict(
              'guillot:alpha-outside', 'guillot:negative-kappa', 'guillot:reinit-judged', 'reinit:other-grid-same-n',
              'reinit:other-planet', 'reinit:planet-set', 'reinit:other-n', 'reinit:first-again', 'grid:integer-decades', 'array:index', 'array:pressure', 'array:all-equal',
              'rodgers:all-equal', 'nlayers:2', 'nlayers:100', 'grid:simple', 'grid:irregular', 'grid:narrow',
-             'via-forward-model', 'via-setter', 'via-setter:a-few-parts-per-billion', 'clone:deepcopy', 'controls:given-as-caller-array', 'npoint:non-positive-pressure-node', 'file:temp_units=kK', 'file:temp_units=mK', 'file:temp_units=deg_C'])
+             'via-forward-model', 'via-setter', 'via-setter:a-few-parts-per-billion', 'history:NPoint', 'history:Guillot2010', 'history:dozens-of-rejections-on-one-object', 'clone:deepcopy', 'controls:given-as-caller-array', 'npoint:non-positive-pressure-node', 'file:temp_units=kK', 'file:temp_units=mK', 'file:temp_units=deg_C'])
 
 NLAYERS = list(range(2, 61)) + [100]
 
@@ -732,6 +732,74 @@ def wl_model(ctx, rng):
     ctx.sig('model', kind, n, round(pm, 6), round(pr, 6), round(pmax, 3), round(pmin, 9))
 
 
+def wl_long(ctx, rng):
+    """A long history on ONE profile object, as in a retrieval whose priors reach into the unphysical: over a hundred
+    parameter updates through the public setters, physical and unphysical ones interleaved -- every unphysical set is
+    rejected (the 100th as the first), every physical one gives a finite positive profile within its controls."""
+    from taurex.data.profiles.temperature import NPoint, Guillot2010
+    n = int(rng.integers(3, 30))
+    P, gk = gen_pressure(ctx, rng, n)
+    planet, _ = gen_planet(rng)
+    steps = int(rng.integers(110, 180)) if ctx.tier == 'quick' else int(rng.integers(300, 900))
+    l0, l1 = np.log10(P[0]), np.log10(P[-1])
+    if rng.random() < 0.5:
+        temps = gen_temps(rng, 3)
+        pp = float(10 ** (l0 + 0.5 * (l1 - l0)))
+        obj = NPoint(T_surface=temps[0], T_top=temps[2], temperature_points=[temps[1]], pressure_points=[pp], smoothing_window=0)
+        obj.initialize_profile(planet, n, P)
+        fp = obj.fitting_parameters()
+        ctx.observe('history:NPoint')
+        rejected = 0
+        for i in range(steps):
+            if rng.random() < 0.5:
+                # the node's pressure is written above the surface pressure or below the top: an inverted node order
+                v = float(P[0] * 10 ** rng.uniform(0.05, 2.0)) if rng.random() < 0.5 else float(P[-1] * 10 ** rng.uniform(-2.0, -0.05))
+            else:
+                v = float(10 ** (l0 + rng.uniform(0.05, 0.95) * (l1 - l0)))
+            fp['P_point1'][3](v)
+            L.redeclare(obj, {('pressure_points', 0): v})
+            if rng.random() < 0.5:
+                t = float(rng.uniform(200, 3000))
+                fp['T_point1'][3](t)
+                L.redeclare(obj, {('temperature_points', 0): t})
+            verdict = L.nonphysical_npoint(obj._vmon_decl[1], P)
+            if verdict == 'borderline':
+                continue
+            if verdict in ('inverted', 'slope'):
+                rejected += 1
+                judge_rejection(ctx, lambda: access(ctx, obj), 'npoint-%s-after-%d-rejections' % (verdict, rejected),
+                                decl=obj._vmon_decl[1], step=i)
+            else:
+                accepted(ctx, access(ctx, obj), 'npoint-valid-in-a-long-history', decl=obj._vmon_decl[1], step=i,
+                         rejected_before=rejected)
+    else:
+        p = dict(T_irr=float(rng.uniform(500, 2500)), kappa_irr=float(10 ** rng.uniform(-4, -1)),
+                 kappa_v1=float(10 ** rng.uniform(-4, -1)), kappa_v2=float(10 ** rng.uniform(-4, -1)),
+                 alpha=float(rng.uniform(0.1, 0.9)), T_int=float(rng.uniform(50, 500)))
+        obj = Guillot2010(**p)
+        obj.initialize_profile(planet, n, P)
+        fp = obj.fitting_parameters()
+        ctx.observe('history:Guillot2010')
+        rejected = 0
+        for i in range(steps):
+            name = ['T_irr', 'T_int'][rng.integers(0, 2)]
+            bad = rng.random() < 0.5
+            v = -float(rng.uniform(1.0, 2000.0)) if bad else float(rng.uniform(50, 2500))
+            fp['T_int_guillot' if name == 'T_int' else name][3](v)
+            L.redeclare(obj, {name: v})
+            d = obj._vmon_decl[1]
+            if float(d['T_irr']) < 0 or float(d['T_int']) < 0:
+                rejected += 1
+                judge_rejection(ctx, lambda: access(ctx, obj), 'guillot-negative-T-after-%d-rejections' % rejected, params=dict(d), step=i)
+            else:
+                accepted(ctx, access(ctx, obj), 'guillot-valid-in-a-long-history', params=dict(d), step=i, rejected_before=rejected)
+    if rejected > 100:
+        ctx.observe('history:over-a-hundred-rejections-on-one-object')
+    elif rejected > 45:
+        ctx.observe('history:dozens-of-rejections-on-one-object')
+    ctx.sig('long', type(obj).__name__, n, steps, rejected)
+
+
 def wl_repo_tests(ctx, rng):
     """The repository's own temperature tests, run in this process with the contracts on (DESIGN 3.4).  Their
     hypothesis strategies draw arbitrary floats: the contracts' domain preconditions count what they do not judge."""
@@ -759,7 +827,7 @@ def wl_repo_tests(ctx, rng):
     ctx.sig('repo-tests', 2)
 
 
-WORKLOADS = {'repo_tests': wl_repo_tests, 'isothermal': wl_isothermal, 'npoint': wl_npoint, 'guillot': wl_guillot, 'rodgers': wl_rodgers,
+WORKLOADS = {'long': wl_long, 'repo_tests': wl_repo_tests, 'isothermal': wl_isothermal, 'npoint': wl_npoint, 'guillot': wl_guillot, 'rodgers': wl_rodgers,
              'array': wl_array, 'file': wl_file, 'model': wl_model}
 
 LEVEL_TEXT = ('Exploration by runtime monitoring: icontract postconditions attached from the harness to the profile property of '
